@@ -3,6 +3,7 @@ package all
 
 import (
 	"verif/harness/core"
+	"verif/harness/props/c01"
 	"verif/harness/props/c03"
 	"verif/harness/props/c17"
 )
@@ -10,6 +11,7 @@ import (
 func Specs() map[string]*core.Spec {
 	m := map[string]*core.Spec{}
 	for _, s := range []*core.Spec{
+		c01.Spec(),
 		c03.Spec(),
 		c17.Spec(),
 	} {
